@@ -62,11 +62,16 @@ def r1_only_invalid_params(ctx):
                     # a closure: its body must build the error with invalid_params
                     lv = tr.origins(x, c.args[1])
                     cl = [F.bodies.get(l.detail.get("def")) for l in lv if l.kind == "closure"]
-                    ok = bool(cl) and all(y is not None and y.calls_to(r"params::invalid_params$") for y in cl)
+                    def _only_invalid_params(y):
+                        if y is None:
+                            return False
+                        rl = tr.origins(y, {"cp": {"l": 0}})
+                        return bool(rl) and all(l2.kind == "call" and re.search(r"params::invalid_params$", l2.detail.get("callee") or "") for l2 in rl)
+                    ok = bool(cl) and all(_only_invalid_params(y) for y in cl)
                 R.check(ok, "C16.R1", "%s:map_err#%d" % (name, k_), "%s maps the serde error through invalid_params" % name, "%s maps a decode error through %s" % (name, k.get("fn") if k else "a closure that does not call invalid_params"), where(c))
         bad = [c for c in b.calls if re.search(r"::(unwrap|expect|unwrap_unchecked)$|^core::panicking::|^std::rt::begin_panic", c.name() or "") and not c.exp]
         R.check(not bad, "C16.R1", "%s:no-unwrap" % name, "%s has no unwrap/expect/panic" % name, "%s can panic on the decoded input (%s)" % (name, [short(c.name()) for c in bad]), where(bad[0]) if bad else None)
-        other_err = [c for c in b.calls if re.search(r"ErrorObject::<'.*>::(owned|borrowed)$|ErrorObject.*From<.*ErrorCode>>::from$", c.name() or "")]
+        other_err = [c for x in F.nested(b) for c in x.calls if re.search(r"ErrorObject::<'.*>::(owned|borrowed)$|ErrorObject.*From<.*ErrorCode>>::from$", c.name() or "")]
         R.check(not other_err, "C16.R1", "%s:no-other-error-ctor" % name, "%s uses no other error constructor" % name, "%s builds an error object directly (%s)" % (name, [short(c.name()) for c in other_err]), where(other_err[0]) if other_err else None)
     R.floor("C16.R1", n, 2, "error construction sites in the decoding functions")
     ip = F.one(r"^jsonrpsee_types::params::invalid_params$")
@@ -297,6 +302,8 @@ def rgen_generated_decoders(ctx):
     from . import c17
     nd = c17.decode_errors_propagate(ctx, "C16.GEN")
     ctx.R.floor("C16.GEN", nd, 40, "parameter reads in generated server closures")
+    nr = c17.subscription_decode_failures_are_rejected(ctx, "C16.GEN")
+    ctx.R.floor("C16.GEN.reject", nr, 10, "parameter reads in generated subscription closures")
 
 
 def rone_is_one_array_parse(ctx):
@@ -327,7 +334,48 @@ def rnext_reads_T(ctx):
     R.check(len(ni) == 1 and ni[0].ga and ni[0].ga[-1] == "T", "C16.NEXT", "next:reads-T", "next::<T> reads the element as T", "ParamsSequence::next::<T> does not read the element as T via next_inner::<T> (%s): a JSON null read with next() is reported as 'no more params' although a plain parse of the element succeeds" % ([c.ga for c in ni] or sorted({short(c.name()) for c in b.calls})[:4]), "%s:%d" % (b.file, b.lo))
 
 
-LIB_RULES = [r1_only_invalid_params, r2_poison_on_error, r3_exhaustion_table, r4_absent_params, rown_into_owned, rnext_reads_T, rws_separator_sees_no_whitespace, rone_is_one_array_parse]
+def _poll_once_scan(F, R, rule, want_body):
+    n = 0
+    bad = []
+    for b in F.real_bodies():
+        if is_test_body(b) or not want_body(b):
+            continue
+        n += 1
+        bad += [c for c in b.calls_to(r"FutureExt::now_or_never$|future::FutureExt::now_or_never$") if not c.exp]
+    for c in bad:
+        R.fn(c.body)
+        R.bad(rule, "%s:now_or_never" % fkey(c.body), "%s polls a future once with now_or_never and drops it: if it is the rejection / answer of a call and the connection's queue is full at that moment, the answer (e.g. `invalid params`, -32602) is lost and replaced by the fallback `internal error`" % short(c.body.path), where(c))
+    if not bad:
+        R.ok(rule, "no-poll-once", "no poll-once-and-drop (now_or_never) in %d bodies" % n)
+    return n
+
+
+def rrej_rejections_are_driven(ctx):
+    """the answer to a subscribe call whose parameters do not decode is the rejection carrying that error; wherever the
+    library issues a rejection on behalf of generated code (jsonrpsee_core::proc_macros_support) its future is spawned or
+    awaited, and nothing in server/core polls a future once and drops it (now_or_never)"""
+    F, R = ctx.F, ctx.R
+    n = _poll_once_scan(F, R, "C16.REJ", lambda b: b.crate in ("jsonrpsee_core", "jsonrpsee_server"))
+    R.floor("C16.REJ", n, 300, "server/core bodies scanned for poll-once-and-drop")
+    for b in F.real_bodies():
+        if "::proc_macros_support::" not in b.path or is_test_body(b):
+            continue
+        for r in b.calls_to(r"PendingSubscriptionSink::reject$"):
+            R.fn(b)
+            holders = follow_value(b, r.dest["l"]) if r.dest else set()
+            ok = any(sp.args and op_place(sp.args[0]) is not None and op_place(sp.args[0])["l"] in holders for sp in b.calls_to(r"tokio::(task::)?spawn(::spawn)?$|IntoFuture>?::into_future$"))
+            R.check(ok, "C16.REJ", "%s:reject-driven" % fkey(b), "the rejection issued for generated code is spawned or awaited", "%s issues a rejection whose future is neither spawned nor awaited" % short(b.path), where(r))
+
+
+def control_poll_once(ctx):
+    from .common import control
+    control(ctx, "C16.REJ", "FutureExt::now_or_never", lambda r: _poll_once_scan(ctx.F, r, "C16.REJ", lambda b: b.path.startswith("verif_fixtures::")))
+
+
+CONTROLS = [control_poll_once]
+
+
+LIB_RULES = [rrej_rejections_are_driven, r1_only_invalid_params, r2_poison_on_error, r3_exhaustion_table, r4_absent_params, rown_into_owned, rnext_reads_T, rws_separator_sees_no_whitespace, rone_is_one_array_parse]
 CONFIGS_QUICK = ["libs-all", "corpus"]
 CONFIGS_THOROUGH = ["libs-all", "facade-full", "corpus"]
 
